@@ -146,6 +146,19 @@ def check_repair(case, acc, sample=False):
             problems.append((sig, 'residue %d (%s -> %s): atoms after repair %r; requested block/modification has %r (surplus %r, lacking %r)' % (
                 resid, sequence[resid - 1], target, have, names, surplus, lacking)))
             break
+        # bonds of the residue, by canonical name: the requested block's bonds plus those of the requested modifications
+        want_bonds = {frozenset((ff.blocks[target].nodes[a]['atomname'], ff.blocks[target].nodes[b]['atomname'])) for a, b in ff.blocks[target].edges}
+        for spec, modname in modifications:
+            is_first, is_last = resid == 1, resid == len(sequence)
+            if modname != 'none' and ((spec == 'nter' and is_first) or (spec == 'cter' and is_last) or spec == '#%d' % resid):
+                mod = ff.modifications[modname]
+                want_bonds |= {frozenset((mod.nodes[a]['atomname'], mod.nodes[b]['atomname'])) for a, b in mod.edges}
+        have_bonds = {frozenset((out.nodes[a]['atomname'], out.nodes[b]['atomname'])) for a, b in out.edges
+                      if out.nodes[a]['resid'] == resid and out.nodes[b]['resid'] == resid}
+        if have_bonds != want_bonds:
+            problems.append(('c19:repair-bonds', 'residue %d (%s -> %s): bonds by name differ from the requested block/modification: %r' % (
+                resid, sequence[resid - 1], target, sorted(map(sorted, have_bonds ^ want_bonds))[:4])))
+            break
         if resn != {target}:
             problems.append(('c19:repair-resname', 'residue %d carries residue names %r after the request for %s' % (resid, resn, target)))
             break
